@@ -64,6 +64,9 @@ theorem fill_ok (L : Nat) (ps : List Piece) (ht : ∀ p ∈ ps, p.Tight) (hfit :
     fill L ps = .ok (piecesBytes ps) := by
   subst hfit; exact fill_exact' ps ht
 
+theorem fill_ok_le (L : Nat) (ps : List Piece) (ht : ∀ p ∈ ps, p.Tight) (hfit : piecesLen ps ≤ L) :
+    ∃ out, fill L ps = .ok out := ⟨_, fill_exact L ps ht hfit⟩
+
 theorem makeCopy_self (n : Nat) (bs : Bytes) (h : bs.length = n) : makeCopy n bs = bs := by
   subst h
   simp [makeCopy, copyInto]
@@ -85,5 +88,18 @@ theorem bytes_len6 (b : Bytes) (h : b.length = 6) : ∃ x0 x1 x2 x3 x4 x5, b = [
 /-- the first `n` bytes of a buffer that starts with an `n`-byte string -/
 theorem take_prefix (n : Nat) (a r : Bytes) (h : a.length = n) : List.take n (a ++ r) = a := by
   subst h; simp
+
+/-! ### tactics -/
+
+/-- evaluate the decoder's reads on a slice whose backing array is an explicit concatenation -/
+macro "rt_reads" "[" ts:Lean.Parser.Tactic.simpLemma,* "]" : tactic =>
+  `(tactic| simp [be16_cells, be32_cells, rd16_cons, rd32_cons, rd16_take, rd32_take, Slice.byteAt, Slice.index,
+      Slice.u16In, Slice.u32In, Slice.u16From, Slice.u32From, Slice.sliceR, Slice.slice, Slice.fromR, Slice.from_,
+      Res.ofOption, Slice.u16Here, Slice.u32Here, Slice.bytes, u8_n8, u16_n16, u32_n32, makeCopy_self, $ts,*])
+
+/-- rewrite `fill L pieces` whose pieces fit exactly into the concatenation of the pieces -/
+macro "rt_fill" : tactic =>
+  `(tactic| rw [fill_ok _ _ (by simp [Piece.Tight, pU8, pU16, pU32, pCopy, pCopyIn])
+      (by simp [piecesLen, Piece.adv, pU8, pU16, pU32, pCopy, pCopyIn] <;> omega)])
 
 end OFV.Lemmas.RT
